@@ -18,7 +18,7 @@ from .common import declare_cells, declare_edges, nested, zsum
 OPS_1D = [
     # (name, expected) expected: "ok" | exception name | "maybe" (depends on the symbolic state, decided in the oracle)
     "fill", "fill_n", "fill_n_empty", "iadd_same", "isub_le", "imul_pos", "idiv_pos", "merge2", "set_float", "normalize_inplace",
-    "iadd_diffbins", "isub_diffbins", "iadd_scalar", "iadd_list", "iadd_none", "isub_any", "imul_any", "imul_hist", "idiv_hist", "imul_list", "idiv_zero_list",
+    "iadd_diffbins", "isub_diffbins", "iadd_scalar", "iadd_list", "iadd_none", "isub_any", "imul_any", "imul_hist", "filln_wshape_f16", "filln_wshape_f32", "idiv_hist", "imul_list", "idiv_zero_list",
     "filln_wshape", "filln_w2d", "fill_badweight", "fill_nonscalar", "dtype_str", "dtype_complex", "dtype_small", "merge_frac", "merge_axis", "getitem_range",
     "set_freq_shape", "set_freq_negative", "set_err_negative", "find_bin_array",
 ]
@@ -93,6 +93,10 @@ class _Base(Harness):
             yield f"wellformed{tag}", self._wellformed(cx, st["after"])
             if st["outcome"] != "ok":
                 yield f"unchanged_after_raise{tag}", self._state_equal(cx, st["before"], st["after"], adaptive)
+                # "at most the dtype may already have been promoted losslessly"
+                from .c13 import RANK, can_cast as _cc
+                b, a = st["before"]["dtype"], st["after"]["dtype"]
+                yield f"dtype_after_raise_lossless{tag}", a == b or (b in RANK and a in RANK and _cc(b, a))
                 yield f"other_operand_unchanged{tag}", self._state_equal(cx, st["other_before"], st["other_after"]) if st.get("other_before") else True
             exp = st["expect"]
             if exp == "ok":
@@ -215,6 +219,8 @@ class C18Step1D(_Base):
             "imul_list": ("TypeError", imul([1, 2]), None),
             "idiv_zero_list": ("TypeError", idiv([1, 0]), None),
             "filln_wshape": ("ValueError", lambda: h.fill_n(np.asarray([v, v]), weights=np.asarray([1])), None),
+            "filln_wshape_f16": ("ValueError", lambda: h.fill_n(np.asarray([v, v]), weights=np.asarray([1.5], dtype="float16"), dropna=False), None),
+            "filln_wshape_f32": ("ValueError", lambda: h.fill_n(np.asarray([v, v]), weights=np.asarray([1.5], dtype="float32"), dropna=False), None),
             "filln_w2d": ("ValueError", lambda: h.fill_n(np.asarray([v, v]), weights=np.asarray([[1, 1], [1, 1]])), None),
             "fill_badweight": (("ValueError", "TypeError"), lambda: h.fill(v, "heavy"), None),
             "fill_nonscalar": (("ValueError", "TypeError"), lambda: h.fill([v, v]), None),
